@@ -39,6 +39,12 @@ def binding_aliases(d):
     return out
 
 
+def mixed_spelling(c, root_ad):
+    """some binding name of [c] is not normalised for the root's auto-dash setting"""
+    keys = [k for k, _ in c["tasks"]] + [k for k, _ in c["aliases"]] + [k for k, _ in c["subs"]]
+    return any(transform(k, root_ad) != k for k in keys)
+
+
 def tree_has(d, pred):
     return pred(d) or any(tree_has(s, pred) for _, s in d["subs"])
 
@@ -290,6 +296,8 @@ class C10(Prop):
             return None
         if tree_has(d, lambda c: bool(binding_aliases(c))):
             return "F-C10b"
+        if tree_has(d, lambda c: mixed_spelling(c, d["auto_dash"])):
+            return "F-C10d"
         if case["view"] == "json" and tree_has(d, renamed):
             return "F-C10c"
         return None
